@@ -1,896 +1,6 @@
-// Conformance driver for spec/memory/Heap.tla and spec/containers/AlignedVec.tla
-// (property C14).  Two worlds, selected by the "world" key of the input line:
-//
-//  "heap": interprets Alloc / Free / Check / CheckAll / LeakCheck / Churn on the
-//          REAL rkcommon::memory::alignedMalloc / alignedFree.  Blocks are kept in
-//          numbered slots; after every successful allocation the full extent of
-//          the block is filled with a pattern derived from a per-allocation tag,
-//          Check counts the bytes that differ from it.  Every call is reported
-//          with the pointer it returned / was given, as 4 limbs of base 2^16
-//          (most significant first; TLC integers are 32-bit).
-//  "vec" : interprets the actions of AlignedVec.tla on two real
-//          rkcommon::containers::AlignedVector<T> (T chosen by "variant":
-//          c1 = char, i4 = int, f8 = double, s12 = 12-byte struct, s64 = 64-byte struct,
-//          nest = self-recursive node type, vany = std::vector<rkcommon::utility::Any>,
-//          trk = lifetime-instrumented type) and on aligned_allocator<T>::allocate directly.
-//
-// The driver decides nothing: it reports pointers, byte counts, contents.
-#include <algorithm>
-#include <climits>
-#include <cmath>
-#include <condition_variable>
-#include <functional>
-#include <mutex>
-#include <thread>
-#include <cstdint>
-#include <cstring>
-#include <initializer_list>
-#include <new>
-#include <set>
-#include <stdexcept>
-#include <string>
-#include <vector>
-#include "driver.h"
-#include "rkcommon/containers/AlignedVector.h"
-#include "rkcommon/containers/aligned_allocator.h"
-#include "rkcommon/memory/malloc.h"
-#include "rkcommon/utility/Any.h"
-
-#if defined(__SANITIZE_ADDRESS__)
-#include <sanitizer/lsan_interface.h>
-#define HAVE_LSAN 1
-#else
-#define HAVE_LSAN 0
-#endif
-
-using vj::Json;
-namespace mem = rkcommon::memory;
-using rkcommon::containers::aligned_allocator;
-using rkcommon::containers::AlignedVector;
-
-// ---------------------------------------------------------------------------
-// 64-bit numbers <-> limbs
-// ---------------------------------------------------------------------------
-static Json toLimbs(uint64_t v)
-{
-  Json a = Json::array();
-  for (int k = 3; k >= 0; --k)
-    a.push((long long)((v >> (16 * k)) & 0xFFFFu));
-  return a;
-}
-static uint64_t fromLimbs(const Json &a)
-{
-  uint64_t v = 0;
-  for (size_t k = 0; k < a.size(); ++k)
-    v = (v << 16) | (uint64_t)(a[k].num() & 0xFFFF);
-  return v;
-}
-
-struct IWorld
-{
-  virtual ~IWorld() {}
-  virtual Json step(const Json &act) = 0;
-};
-
-// ---------------------------------------------------------------------------
-// heap world
-// ---------------------------------------------------------------------------
-template <int N>
-struct Elem
-{
-  unsigned char b[N];
-};
-
-static const uint64_t SAMPLED_ABOVE = (uint64_t)1 << 28; // larger blocks are touched at both ends only
-static const uint64_t EDGE          = 4096;
-
-static inline unsigned char patternByte(uint64_t tag, uint64_t i)
-{
-  return (unsigned char)(tag * 167u + i * 13u + (i >> 8) * 7u + (i >> 16) * 3u + 1u);
-}
-
-struct HeapWorld : IWorld
-{
-  struct Slot
-  {
-    bool used;
-    unsigned char *p;
-    uint64_t size;
-    uint64_t tag;
-    int viaAlloc; // element size if the block came from aligned_allocator<Elem<es>>::allocate, else 0
-  };
-
-  // calls may be made on the driver's thread (t = 0), on one worker thread that lives as long as the world
-  // (t = 1) or on a thread created for this one call (t = 2); always one call at a time
-  struct Worker
-  {
-    std::thread th;
-    std::mutex m;
-    std::condition_variable cv;
-    std::function<void()> job;
-    bool hasJob, done, quit;
-    Worker() : hasJob(false), done(false), quit(false) {}
-    void loop()
-    {
-      std::unique_lock<std::mutex> l(m);
-      for (;;) {
-        cv.wait(l, [&] { return hasJob || quit; });
-        if (quit)
-          return;
-        job();
-        hasJob = false;
-        done   = true;
-        cv.notify_all();
-      }
-    }
-    void run(const std::function<void()> &f)
-    {
-      if (!th.joinable())
-        th = std::thread([this] { loop(); });
-      std::unique_lock<std::mutex> l(m);
-      job    = f;
-      hasJob = true;
-      done   = false;
-      cv.notify_all();
-      cv.wait(l, [&] { return done; });
-    }
-    ~Worker()
-    {
-      if (th.joinable()) {
-        {
-          std::unique_lock<std::mutex> l(m);
-          quit = true;
-          cv.notify_all();
-        }
-        th.join();
-      }
-    }
-  };
-  Worker worker;
-  void runOn(int t, const std::function<void()> &f)
-  {
-    if (t == 1)
-      worker.run(f);
-    else if (t == 2) {
-      std::thread th(f);
-      th.join();
-    } else
-      f();
-  }
-  std::vector<Slot> slots; // index = handle (1-based)
-  uint64_t tagCounter;
-
-  HeapWorld() : tagCounter(0)
-  {
-    Slot e = {false, nullptr, 0, 0, 0};
-    slots.assign(65, e);
-  }
-  ~HeapWorld() override
-  {
-    for (size_t h = 0; h < slots.size(); ++h)
-      if (slots[h].used)
-        release(slots[h]);
-  }
-
-  template <int N>
-  static void *viaAllocator(uint64_t size, std::string &thrown)
-  {
-    aligned_allocator<Elem<N>> al;
-    try {
-      return al.allocate((size_t)(size / N));
-    } catch (const std::length_error &) {
-      thrown = "length_error";
-    } catch (const std::bad_alloc &) {
-      thrown = "bad_alloc";
-    } catch (...) {
-      thrown = "other";
-    }
-    return nullptr;
-  }
-  static void *callAllocator(uint64_t size, int es, std::string &thrown)
-  {
-    switch (es) {
-    case 1: return viaAllocator<1>(size, thrown);
-    case 3: return viaAllocator<3>(size, thrown);
-    case 4: return viaAllocator<4>(size, thrown);
-    case 12: return viaAllocator<12>(size, thrown);
-    default: return viaAllocator<64>(size, thrown);
-    }
-  }
-  static void release(const Slot &s)
-  {
-    switch (s.viaAlloc) {
-    case 0: mem::alignedFree(s.p); break;
-    case 1: aligned_allocator<Elem<1>>().deallocate((Elem<1> *)s.p, (size_t)(s.size / 1)); break;
-    case 3: aligned_allocator<Elem<3>>().deallocate((Elem<3> *)s.p, (size_t)(s.size / 3)); break;
-    case 4: aligned_allocator<Elem<4>>().deallocate((Elem<4> *)s.p, (size_t)(s.size / 4)); break;
-    case 12: aligned_allocator<Elem<12>>().deallocate((Elem<12> *)s.p, (size_t)(s.size / 12)); break;
-    default: aligned_allocator<Elem<64>>().deallocate((Elem<64> *)s.p, (size_t)(s.size / 64)); break;
-    }
-  }
-
-  // visit every byte offset the client owns and uses (all of them, or both edges of a huge block)
-  template <typename F>
-  static void forOffsets(uint64_t size, F f)
-  {
-    if (size <= SAMPLED_ABOVE) {
-      for (uint64_t i = 0; i < size; ++i)
-        f(i);
-    } else {
-      for (uint64_t i = 0; i < EDGE; ++i)
-        f(i);
-      for (uint64_t i = size - EDGE; i < size; ++i)
-        f(i);
-    }
-  }
-  static void fill(unsigned char *p, uint64_t size, uint64_t tag)
-  {
-    volatile unsigned char *q = p;
-    forOffsets(size, [&](uint64_t i) { q[i] = patternByte(tag, i); });
-  }
-  static long long countBad(const unsigned char *p, uint64_t size, uint64_t tag)
-  {
-    long long bad = 0;
-    const volatile unsigned char *q = p;
-    forOffsets(size, [&](uint64_t i) {
-      if (q[i] != patternByte(tag, i))
-        ++bad;
-    });
-    return bad;
-  }
-
-  static void *callAlloc(uint64_t size, size_t align, int es)
-  {
-    // es selects the typed overload alignedMalloc<T>(nElements, align) when size is a multiple of sizeof(T)
-    if (es == 3 && size % 3 == 0)
-      return mem::alignedMalloc<Elem<3>>((size_t)(size / 3), align);
-    if (es == 4 && size % 4 == 0)
-      return mem::alignedMalloc<Elem<4>>((size_t)(size / 4), align);
-    if (es == 12 && size % 12 == 0)
-      return mem::alignedMalloc<Elem<12>>((size_t)(size / 12), align);
-    if (es == 64 && size % 64 == 0)
-      return mem::alignedMalloc<Elem<64>>((size_t)(size / 64), align);
-    return mem::alignedMalloc((size_t)size, align);
-  }
-
-  static long rssKb()
-  {
-    FILE *f = fopen("/proc/self/statm", "r");
-    if (!f)
-      return -1;
-    long total = 0, res = 0;
-    int n = fscanf(f, "%ld %ld", &total, &res);
-    fclose(f);
-    if (n != 2)
-      return -1;
-    return res * (long)(sysconf(_SC_PAGESIZE) / 1024);
-  }
-
-  static bool leakDetectorOn()
-  {
-#if HAVE_LSAN
-    const char *o = getenv("ASAN_OPTIONS");
-    return o && strstr(o, "detect_leaks=1");
-#else
-    return false;
-#endif
-  }
-
-  Json step(const Json &act) override
-  {
-    const std::string &a = act["a"].str();
-    const Json &arg     = act["arg"];
-    Json o              = Json::object();
-    if (a == "Alloc") {
-      size_t h = (size_t)arg["h"].num();
-      if (h >= slots.size() || slots[h].used) {
-        o.set("skipped", true);
-        return o;
-      }
-      uint64_t size = fromLimbs(arg["size"]);
-      size_t align  = (size_t)arg["align"].num();
-      int es        = arg.has("es") ? (int)arg["es"].num() : 0;
-      bool via      = arg.has("via") && arg["via"].str() == "alloc" && es > 0 && size % (uint64_t)es == 0;
-      int t         = arg.has("t") ? (int)arg["t"].num() : 0;
-      void *p       = nullptr;
-      std::string thrown;
-      runOn(t, [&] { p = via ? callAllocator(size, es, thrown) : callAlloc(size, align, es); });
-      o.set("skipped", false);
-      o.set("p", toLimbs((uint64_t)(uintptr_t)p));
-      o.set("thrown", thrown);
-      if (p) {
-        Slot s = {true, (unsigned char *)p, size, ++tagCounter, via ? es : 0};
-        fill(s.p, s.size, s.tag);
-        slots[h] = s;
-      }
-    } else if (a == "Free") {
-      size_t h = (size_t)arg["h"].num();
-      if (h >= slots.size() || !slots[h].used) {
-        o.set("skipped", true);
-        return o;
-      }
-      o.set("skipped", false);
-      o.set("p", toLimbs((uint64_t)(uintptr_t)slots[h].p));
-      {
-        int t        = arg.has("t") ? (int)arg["t"].num() : 0;
-        const Slot c = slots[h];
-        runOn(t, [&] { release(c); });
-      }
-      slots[h].used = false;
-      slots[h].p    = nullptr;
-    } else if (a == "Check") {
-      size_t h = (size_t)arg["h"].num();
-      if (h >= slots.size() || !slots[h].used) {
-        o.set("skipped", true);
-        return o;
-      }
-      o.set("skipped", false);
-      o.set("bad", countBad(slots[h].p, slots[h].size, slots[h].tag));
-    } else if (a == "CheckAll") {
-      Json bl = Json::array();
-      for (size_t h = 1; h < slots.size(); ++h)
-        if (slots[h].used) {
-          Json pr = Json::array();
-          pr.push((long long)h);
-          pr.push(countBad(slots[h].p, slots[h].size, slots[h].tag));
-          bl.push(pr);
-        }
-      o.set("blocks", bl);
-    } else if (a == "Burst") {
-      // n requests in a row, all held at once, each filled with its own pattern, all checked, all freed
-      size_t n      = (size_t)arg["n"].num();
-      uint64_t size = fromLimbs(arg["size"]);
-      size_t align  = (size_t)arg["align"].num();
-      int t         = arg.has("t") ? (int)arg["t"].num() : 0;
-      std::vector<std::pair<uintptr_t, uint64_t>> got; // address, tag
-      long long nulls = 0, bad = 0;
-      runOn(t, [&] {
-        for (size_t k = 0; k < n; ++k) {
-          void *p = mem::alignedMalloc((size_t)size, align);
-          if (!p) {
-            ++nulls;
-            continue;
-          }
-          uint64_t tag = ++tagCounter;
-          fill((unsigned char *)p, size, tag);
-          got.push_back(std::make_pair((uintptr_t)p, tag));
-        }
-      });
-      for (size_t k = 0; k < got.size(); ++k)
-        bad += countBad((const unsigned char *)got[k].first, size, got[k].second);
-      runOn(t, [&] {
-        for (size_t k = 0; k < got.size(); ++k)
-          mem::alignedFree((void *)got[k].first);
-      });
-      std::sort(got.begin(), got.end());
-      Json ps = Json::array();
-      for (size_t k = 0; k < got.size(); ++k)
-        ps.push(toLimbs((uint64_t)got[k].first));
-      o.set("ps", ps);
-      o.set("nulls", nulls);
-      o.set("bad", bad);
-    } else if (a == "LeakCheck") {
-      long long leaked = -1;
-#if HAVE_LSAN
-      if (leakDetectorOn())
-        leaked = __lsan_do_recoverable_leak_check() ? 1 : 0;
-#endif
-      o.set("leaked", leaked);
-    } else if (a == "Churn") {
-      uint64_t size = (uint64_t)arg["size_kb"].num() * 1024u;
-      long cycles   = (long)arg["cycles"].num();
-      long nonnull  = 0;
-      long r0       = rssKb();
-      for (long c = 0; c < cycles; ++c) {
-        volatile unsigned char *p = (volatile unsigned char *)mem::alignedMalloc((size_t)size, 64);
-        if (!p)
-          continue;
-        ++nonnull;
-        for (uint64_t i = 0; i < size; i += 1024)
-          p[i] = (unsigned char)(c + i);
-        if (size)
-          p[size - 1] = 1;
-        mem::alignedFree((void *)p);
-      }
-      long r1 = rssKb();
-      o.set("nonnull", (long long)nonnull);
-      o.set("retained_kb", (long long)((r0 < 0 || r1 < r0) ? 0 : r1 - r0));
-    } else {
-      o.set("unknown_action", a);
-    }
-    return o;
-  }
-};
-
-// ---------------------------------------------------------------------------
-// vector world
-// ---------------------------------------------------------------------------
-struct S12
-{
-  int a, b, c;
-  bool operator==(const S12 &o) const { return a == o.a && b == o.b && c == o.c; }
-};
-struct S64
-{
-  int w[16];
-  bool operator==(const S64 &o) const { return memcmp(w, o.w, sizeof w) == 0; }
-};
-struct B3 // narrower than a word, not a power of two: SIZE_MAX is a multiple of 3, so max_size() * sizeof(T) = SIZE_MAX exactly
-{
-  unsigned char b[3];
-  bool operator==(const B3 &o) const { return memcmp(b, o.b, 3) == 0; }
-};
-struct alignas(32) A32 // over-aligned (> 16) element
-{
-  int w[8];
-  bool operator==(const A32 &o) const { return memcmp(w, o.w, sizeof w) == 0; }
-};
-static_assert(sizeof(B3) == 3, "B3 must be 3 bytes");
-static_assert(sizeof(A32) == 32 && alignof(A32) == 32, "A32 must be 32 bytes, 32-aligned");
-static_assert(sizeof(S12) == 12, "S12 must be 12 bytes");
-static_assert(sizeof(S64) == 64, "S64 must be 64 bytes");
-
-// a self-recursive value type (like a JSON / variant node): it can be built from a list of itself, so
-// "T{t}" and "T(t)" are different things for it.  Abstract value: (v, number of kids); a copy must have no kids.
-struct Nest
-{
-  int v;
-  std::vector<Nest> kids;
-  Nest() : v(0) {}
-  Nest(int x) : v(x) {}
-  Nest(const Nest &) = default;
-  Nest &operator=(const Nest &) = default;
-  Nest(std::initializer_list<Nest> l) : v(-1), kids(l) {}
-  bool operator==(const Nest &o) const { return v == o.v && kids == o.kids; }
-};
-
-// a std type with an initializer_list constructor whose list element is constructible from the type itself
-typedef std::vector<rkcommon::utility::Any> VAny;
-
-// lifetime-instrumented element: every object registers its address; construction on a live address,
-// destruction / reading of a dead one and the kind of constructor used are counted.
-struct Tracked
-{
-  struct Counters
-  {
-    long ctorOnLive, dtorOnDead, useOfDead, intCtor, listCtor, defCtor, copies, moves, assigns;
-  };
-  static Counters &c()
-  {
-    static Counters k = {0, 0, 0, 0, 0, 0, 0, 0, 0};
-    return k;
-  }
-  static std::set<const void *> &live()
-  {
-    static std::set<const void *> s;
-    return s;
-  }
-  // the fuse: when armed with k > 0 the k-th copy / move construction from now on throws (and disarms)
-  static long &fuse()
-  {
-    static long f = 0;
-    return f;
-  }
-  struct Blown : std::runtime_error
-  {
-    Blown() : std::runtime_error("copy fuse blown") {}
-  };
-  static void burn()
-  {
-    if (fuse() > 0 && --fuse() == 0)
-      throw Blown();
-  }
-  int value;
-  void reg()
-  {
-    if (!live().insert(this).second)
-      ++c().ctorOnLive;
-  }
-  int read() const
-  {
-    if (!live().count(this))
-      ++c().useOfDead;
-    return value;
-  }
-  Tracked() : value(0)
-  {
-    reg();
-    ++c().defCtor;
-  }
-  explicit Tracked(int x) : value(x)
-  {
-    reg();
-    ++c().intCtor;
-  }
-  Tracked(const Tracked &o) : value(o.read())
-  {
-    burn(); // before the object exists: a throwing copy constructs nothing
-    reg();
-    ++c().copies;
-  }
-  Tracked(Tracked &&o) : value(o.read())
-  {
-    burn();
-    reg();
-    ++c().moves;
-  }
-  Tracked(std::initializer_list<Tracked> l) : value(-500 - (int)l.size())
-  {
-    reg();
-    ++c().listCtor;
-  }
-  Tracked &operator=(const Tracked &o)
-  {
-    if (!live().count(this))
-      ++c().useOfDead;
-    value = o.read();
-    ++c().assigns;
-    return *this;
-  }
-  ~Tracked()
-  {
-    if (!live().erase(this))
-      ++c().dtorOnDead;
-    value = -777;
-  }
-  bool operator==(const Tracked &o) const { return value == o.value; }
-};
-
-// model value <-> element.  0 <-> the value-initialised element T(); an element whose redundant parts
-// disagree (or that is not what a copy of a client value can be) decodes to a value <= -1000.
-template <typename T>
-struct Enc;
-// model values 0..9 stand for the values of the element type that generic code tends to mishandle
-template <>
-struct Enc<char>
-{
-  // NUL, a letter, control characters, the ends of the signed range, bytes >= 0x80
-  static const unsigned char *tab()
-  {
-    static const unsigned char t[10] = {0x00, 0x01, 'A', '\n', 0x20, 0x7E, 0x7F, 0xFF, 0x80, 0xC3};
-    return t;
-  }
-  static char to(long long x) { return (char)tab()[x]; }
-  static long long from(const char &c)
-  {
-    for (int k = 0; k < 10; ++k)
-      if ((unsigned char)c == tab()[k])
-        return k;
-    return -1000 - (long long)(unsigned char)c;
-  }
-};
-template <>
-struct Enc<int>
-{
-  static int to(long long x) { return x == 6 ? INT_MAX : x == 7 ? -1 : x == 8 ? INT_MIN : (int)x; }
-  static long long from(const int &c) { return c == INT_MAX ? 6 : c == -1 ? 7 : c == INT_MIN ? 8 : (long long)c; }
-};
-template <>
-struct Enc<double>
-{
-  // compared by bit pattern: 9 = -0.0 (equal to T() under ==), 8 = a NaN with payload, 7 = the smallest subnormal,
-  // 6 = the most negative finite value, 5 = 0.1 (not dyadic)
-  static uint64_t bits(long long x)
-  {
-    switch (x) {
-    case 9: return 0x8000000000000000ull;
-    case 8: return 0x7ff8000000000abcull;
-    case 7: return 0x0000000000000001ull;
-    case 6: return 0xffefffffffffffffull;
-    case 5: return 0x3fb999999999999aull;
-    default: {
-      double d = (double)x;
-      uint64_t b;
-      memcpy(&b, &d, 8);
-      return b;
-    }
-    }
-  }
-  static double to(long long x)
-  {
-    uint64_t b = bits(x);
-    double d;
-    memcpy(&d, &b, 8);
-    return d;
-  }
-  static long long from(const double &d)
-  {
-    uint64_t b;
-    memcpy(&b, &d, 8);
-    for (long long k = 0; k < 10; ++k)
-      if (bits(k) == b)
-        return k;
-    return -1000;
-  }
-};
-template <>
-struct Enc<B3>
-{
-  static B3 to(long long x)
-  {
-    B3 s = {{(unsigned char)x, (unsigned char)(x * 3), (unsigned char)(x * 5)}};
-    return s;
-  }
-  static long long from(const B3 &s) { return (s.b[1] == (unsigned char)(s.b[0] * 3) && s.b[2] == (unsigned char)(s.b[0] * 5)) ? s.b[0] : -1000 - s.b[0]; }
-};
-template <>
-struct Enc<A32>
-{
-  static A32 to(long long x)
-  {
-    A32 s;
-    for (int k = 0; k < 8; ++k)
-      s.w[k] = (int)x * (k + 1);
-    return s;
-  }
-  static long long from(const A32 &s)
-  {
-    if ((uintptr_t)&s % 32 != 0)
-      return -2000; // the element itself is not where its type must be
-    for (int k = 0; k < 8; ++k)
-      if (s.w[k] != s.w[0] * (k + 1))
-        return -1000 - s.w[0];
-    return s.w[0];
-  }
-};
-template <>
-struct Enc<S12>
-{
-  static S12 to(long long x)
-  {
-    S12 s = {(int)x, (int)x * 31, (int)x * 17};
-    return s;
-  }
-  static long long from(const S12 &s) { return (s.b == s.a * 31 && s.c == s.a * 17) ? s.a : -1000 - s.a; }
-};
-template <>
-struct Enc<S64>
-{
-  static S64 to(long long x)
-  {
-    S64 s;
-    for (int k = 0; k < 16; ++k)
-      s.w[k] = (int)x * (k + 1);
-    return s;
-  }
-  static long long from(const S64 &s)
-  {
-    for (int k = 0; k < 16; ++k)
-      if (s.w[k] != s.w[0] * (k + 1))
-        return -1000 - s.w[0];
-    return s.w[0];
-  }
-};
-template <>
-struct Enc<Nest>
-{
-  static Nest to(long long x) { return Nest((int)x); }
-  static long long from(const Nest &n) { return n.kids.empty() ? n.v : -1000 - (long long)n.kids.size(); }
-};
-template <>
-struct Enc<VAny>
-{
-  static VAny to(long long x)
-  {
-    VAny v;
-    if (x != 0)
-      v.push_back(rkcommon::utility::Any((int)x));
-    return v;
-  }
-  static long long from(const VAny &v)
-  {
-    if (v.empty())
-      return 0;
-    if (v.size() == 1 && v[0].is<int>())
-      return v[0].get<int>();
-    return -1000 - (long long)v.size();
-  }
-};
-template <>
-struct Enc<Tracked>
-{
-  static Tracked to(long long x) { return Tracked((int)x); }
-  static long long from(const Tracked &t) { return t.read(); }
-};
-
-template <typename T>
-struct Life
-{
-  static void begin() {}
-  static void report(Json &) {}
-  static void arm(long) {}
-  static void disarm() {}
-};
-template <>
-struct Life<Tracked>
-{
-  static long &convAtBegin()
-  {
-    static long v = 0;
-    return v;
-  }
-  static void begin() { convAtBegin() = Tracked::c().intCtor + Tracked::c().listCtor; }
-  static void arm(long k) { Tracked::fuse() = k; }
-  static void disarm() { Tracked::fuse() = 0; }
-  static void report(Json &o)
-  {
-    Json l = Json::object();
-    l.set("live", (long long)Tracked::live().size());
-    l.set("ctor_on_live", (long long)Tracked::c().ctorOnLive);
-    l.set("dtor_on_dead", (long long)Tracked::c().dtorOnDead);
-    l.set("use_of_dead", (long long)Tracked::c().useOfDead);
-    l.set("conv_ctor", (long long)(Tracked::c().intCtor + Tracked::c().listCtor - convAtBegin()));
-    o.set("life", l);
-    o.set("copies", (long long)Tracked::c().copies);
-    o.set("moves", (long long)Tracked::c().moves);
-  }
-};
-
-template <typename T>
-struct VecWorld : IWorld
-{
-  AlignedVector<T> v[2];
-
-  VecWorld()
-  {
-    Tracked::Counters z = {0, 0, 0, 0, 0, 0, 0, 0, 0};
-    Tracked::c()        = z; // (objects of an earlier world are gone: its vectors were destroyed)
-  }
-
-  Json items(int i) const
-  {
-    Json a = Json::array();
-    for (size_t k = 0; k < v[i].size(); ++k)
-      a.push(Enc<T>::from(v[i][k]));
-    return a;
-  }
-
-  // the container call itself; every client value is built before Life<T>::begin() and dies before the report
-  void perform(const std::string &a, const Json &arg, Json &o)
-  {
-    int i               = arg.has("i") ? (int)arg["i"].num() - 1 : 0;
-    AlignedVector<T> &t = v[i];
-    AlignedVector<T> &u = v[1 - i];
-    T val               = Enc<T>::to(arg.has("x") ? arg["x"].num() : 0);
-    Life<T>::begin();
-    o.set("ret", "void");
-    if (arg.has("fuse"))
-      Life<T>::arm((long)arg["fuse"].num());
-    try {
-      performCall(a, arg, o, t, u, val);
-    } catch (const Tracked::Blown &) {
-      o.set("ret", "threw");
-    }
-    Life<T>::disarm();
-  }
-
-  template <typename AL>
-  static T *allocateHow(AL &al, const std::string &how, size_t n)
-  {
-    if (how == "hint")
-      return al.allocate(n, (const int *)nullptr);
-    return al.allocate(n);
-  }
-
-  void performCall(const std::string &a, const Json &arg, Json &o, AlignedVector<T> &t, AlignedVector<T> &u, T &val)
-  {
-    if (a == "PushBack") {
-      t.push_back(val);
-    } else if (a == "PushBackRv") {
-      t.push_back(std::move(val));
-    } else if (a == "PushBackOwn") {
-      t.push_back(t[0]);
-    } else if (a == "PopBack") {
-      t.pop_back();
-    } else if (a == "Resize") {
-      t.resize((size_t)arg["n"].num());
-    } else if (a == "ResizeVal") {
-      t.resize((size_t)arg["n"].num(), val);
-    } else if (a == "Reserve") {
-      t.reserve((size_t)arg["n"].num());
-    } else if (a == "ShrinkToFit") {
-      t.shrink_to_fit();
-    } else if (a == "Assign") {
-      t.assign((size_t)arg["n"].num(), val);
-    } else if (a == "AssignFrom") {
-      t = u;
-    } else if (a == "CopyCtor") {
-      AlignedVector<T> tmp(u);
-      t.swap(tmp);
-    } else if (a == "MoveAssign") {
-      t = std::move(u);
-      u.clear(); // a moved-from vector is valid but unspecified: clear() gives it a specified value again
-    } else if (a == "SelfAssign") {
-      AlignedVector<T> &alias = t;
-      t                       = alias;
-    } else if (a == "InsertOwn") {
-      t.insert(t.begin(), t.back());
-    } else if (a == "ResizeValOwn") {
-      t.resize((size_t)arg["n"].num(), t[0]);
-    } else if (a == "Swap") {
-      v[0].swap(v[1]);
-    } else if (a == "Clear") {
-      t.clear();
-    } else if (a == "Insert") {
-      t.insert(t.begin() + (ptrdiff_t)arg["pos"].num(), val);
-    } else if (a == "InsertMid") {
-      t.insert(t.begin() + (ptrdiff_t)(t.size() / 2), val);
-    } else if (a == "Allocate") {
-      // "rebind": the allocator a node-based container would derive from this one
-      // how = "plain": aligned_allocator<T>; "hint": its allocate(n, hint) overload; "rebind": the allocator a
-      // node-based container derives from another one (rebind<T>::other, converting constructor)
-      const std::string how = arg.has("how") ? arg["how"].str() : "plain";
-      aligned_allocator<T> plainAl;
-      aligned_allocator<long> srcAl;
-      typename aligned_allocator<long>::template rebind<T>::other rebAl(srcAl);
-      auto &al = how == "rebind" ? rebAl : plainAl;
-      const std::string &rel = arg["rel"].str();
-      long long d            = arg["d"].num();
-      size_t n;
-      if (rel == "abs")
-        n = (size_t)d;
-      else if (rel == "max")
-        n = al.max_size() + (size_t)d; // size_t arithmetic (d may be negative)
-      else
-        n = (~(size_t)0) / sizeof(T) + (size_t)d;
-      o.set("n", toLimbs((uint64_t)n));
-      bool lenErr = false;
-      try {
-        T *p = allocateHow(al, how, n);
-        if (!p) {
-          o.set("ret", "null");
-        } else {
-          o.set("ret", "ok");
-          o.set("amod64", (long long)((uintptr_t)p % 64));
-          // use what was handed out: all of it when small, both ends when huge
-          volatile unsigned char *q = (volatile unsigned char *)p;
-          if (n > (~(size_t)0) / sizeof(T)) {
-            // the byte count is not representable: there is no "full extent" to touch
-          } else if (n <= ((size_t)1 << 24) / sizeof(T)) {
-            for (size_t k = 0; k < n * sizeof(T); ++k)
-              q[k] = (unsigned char)k;
-          } else {
-            q[0] = 1;
-            q[(n - 1) * sizeof(T) + sizeof(T) - 1] = 1; // address of the last byte of element n-1
-          }
-          al.deallocate(p, n);
-        }
-      } catch (const std::length_error &) {
-        lenErr = true;
-        o.set("ret", "length_error");
-      } catch (const std::bad_alloc &) {
-        o.set("ret", "bad_alloc");
-      } catch (const std::exception &e) {
-        o.set("ret", std::string("other:") + e.what());
-      }
-      o.set("len_err", lenErr);
-    } else {
-      o.set("ret", "unknown action " + a);
-    }
-  }
-
-  Json step(const Json &act) override
-  {
-    Json o             = Json::object();
-    const T *before[2] = {v[0].data(), v[1].data()};
-    perform(act["a"].str(), act["arg"], o);
-    Json it = Json::array(), sz = Json::array(), md = Json::array(), cp = Json::array(), mv = Json::array();
-    for (int k = 0; k < 2; ++k) {
-      it.push(items(k));
-      sz.push((long long)v[k].size());
-      md.push((long long)((uintptr_t)v[k].data() % 64));
-      cp.push((long long)v[k].capacity());
-      mv.push(v[k].data() != before[k]);
-    }
-    o.set("items", it);
-    o.set("sizes", sz);
-    o.set("mod64", md);
-    o.set("cap", cp);
-    o.set("moved", mv);
-    Life<T>::report(o);
-    return o;
-  }
-};
+// Conformance driver for property C14: the worlds are in worlds.h, the vector worlds of the Blob<size, alignof>
+// element types in blobs<k>.cpp
+#include "worlds.h"
 
 struct World
 {
@@ -919,6 +29,8 @@ struct World
       w = new VecWorld<VAny>();
     else if (v == "trk")
       w = new VecWorld<Tracked>();
+    else if ((w = makeBlobWorld1(v)) || (w = makeBlobWorld2(v)) || (w = makeBlobWorld3(v)) || (w = makeBlobWorld4(v))) {
+    }
     else
       w = new VecWorld<int>();
   }
